@@ -84,11 +84,15 @@ impl Window {
     #[must_use]
     pub fn tumble(ts: TimestampMs, size_ms: u64, offset_ms: u64) -> Self {
         debug_assert!(size_ms > 0);
-        // Position relative to the offset; windows start at offset + k*size.
-        let rel = ts - offset_ms;
+        // Window starts are offset + k*size for any integer k, so only the phase
+        // `offset % size` matters; reducing it first keeps `ts - off` from underflowing
+        // whenever a window containing `ts` is representable (e.g. `ts < offset_ms`).
+        let off = offset_ms % size_ms;
+        // Position relative to the phase; windows start at off + k*size.
+        let rel = ts - off;
         // For u64, floor division equals integer division.
         let k = div_floor(rel, size_ms);
-        let win_start = k * size_ms + offset_ms;
+        let win_start = k * size_ms + off;
         Self {
             start: win_start,
             end: win_start + size_ms,
